@@ -449,7 +449,7 @@ class Engine:
         recs = []
         for fam, t, text, sigma, n in accept_cases(ctx):
             tag = shape(t)
-            budget = call_budget(nodes(t)) if fam == "core" else call_budget(8)
+            budget = call_budget(8 if fam == "fixed" else nodes(t))
             out, _ = observe_accept(text, sigma, n, budget)
             recs.append({"kind": "text", "must": True, "re": codes(text), "sigma": sigma, "n": n, "out": out,
                          "key": "C31:text:shape=%s:%s:re=%s" % (tag, outcome_tag(out), text), "retext": text, "fam": fam,
